@@ -67,6 +67,13 @@ def dotted(node) -> str | None:
     return None
 
 
+class SortChange(Exception):
+    """a loop state variable leaves the body with another sort than it entered (e.g. `res = maxt` then `res = a / b`)"""
+    def __init__(self, name, have, want):
+        super().__init__(f'{name}: {have} -> {want}')
+        self.name, self.have, self.want = name, have, want
+
+
 class Prim:
     """one reviewed primitive: Python callee -> field of the family's structure of primitives.
     `args` = sorts of the kept positional arguments, in the Python order; `kw` = keyword name -> position (keywords that may
@@ -79,12 +86,13 @@ class Prim:
 
 
 class Target:
-    def __init__(self, module, name, params, ret, family, lean=None, drop=(), consts=None, only=None):
+    def __init__(self, module, name, params, ret, family, lean=None, drop=(), consts=None, only=None, fuels=()):
         self.module, self.name, self.params, self.ret, self.family = module, name, list(params), ret, family
         self.lean = lean or (module[:-3].replace('/', '_') + '_' + name)
         self.drop = set(drop)                   # parameters that are not value-level arguments (PLUMBING parameters are added)
         self.consts = dict(consts or {})        # module-level names readable in the body: name -> (lean text, sort)
         self.only = only
+        self.fuels = list(fuels)                # reviewed iteration bounds of the `while` loops, in source order (Python expressions)
 
     @property
     def key(self):
@@ -234,6 +242,9 @@ class Tr:
         if isinstance(node, ast.Attribute):
             # attribute reads are primitives of arity 1: `x.size` -> P.size x
             key = '.' + node.attr
+            if not (key in self.fam.prims):
+                _, rs = self._E(node.value, env)
+                key = f'{key}:{rs}'                      # the same attribute of receivers of different sorts
             if key in self.fam.prims:
                 p = self.fam.prims[key]
                 a, _ = self.E(node.value, env, p.args[0])
@@ -277,6 +288,9 @@ class Tr:
         sym = self.ARITH[op]
         a, sa = self._E(node.left, env)
         b, sb = self._E(node.right, env)
+        if f'{sa}{sym}{sb}' in self.fam.prims:          # operator on abstract arrays: a reviewed primitive
+            p = self.fam.prims[f'{sa}{sym}{sb}']
+            return f'(P.{p.field} {a} {b})', p.ret
         # literal adapts to the other side
         if sa == 'natlit' and sb == 'natlit':
             if op is ast.Div:
@@ -383,9 +397,13 @@ class Tr:
                 return f'(List.foldl (fun a b => a + b) 0 {a})', 'K'
         # builtin max / min of two scalars: Python returns the FIRST argument unless the second is strictly larger / smaller
         if d in ('max', 'min') and len(node.args) == 2 and not node.keywords and 'K' in self.fam.tparams:
-            a, sa = self._E(node.args[0], env, 'K')
-            b, sb = self._E(node.args[1], env, 'K')
-            a, b = self.coerce(a, sa, 'K', node), self.coerce(b, sb, 'K', node)
+            a, sa = self._E(node.args[0], env)
+            b, sb = self._E(node.args[1], env)
+            tgt = 'K' if 'K' in (sa, sb) else ('int' if {sa, sb} <= {'int', 'nat', 'natlit'} else 'K')
+            a, b = self.coerce(a, sa, tgt, node), self.coerce(b, sb, tgt, node)
+            if tgt == 'int':
+                a, b = f'({a} : Int)', f'({b} : Int)'
+                return (f'(if {a} < {b} then {b} else {a})' if d == 'max' else f'(if {b} < {a} then {b} else {a})'), 'int'
             return (f'(if {a} < {b} then {b} else {a})' if d == 'max' else f'(if {b} < {a} then {b} else {a})'), 'K'
         # np.array([[..], [..]]) of scalars: the rows, in order
         if d == 'np.array' and len(node.args) == 1 and not node.keywords and isinstance(node.args[0], ast.List) \
@@ -579,6 +597,10 @@ class Tr:
             def kk(e, i, merged=merged, sorts=sorts):
                 for n in merged:
                     if sorts.setdefault(n, e[n]) != e[n]:
+                        rk = {'nat': 1, 'int': 2, 'K': 3}
+                        if sorts[n] in rk and e[n] in rk and n in env:
+                            lo, hi = sorted((sorts[n], e[n]), key=rk.get)
+                            raise SortChange(n, env[n], hi)     # embedded before the enclosing loop, then retried
                         raise self.err(s, f'variable {n} has sort {sorts[n]} in one branch and {e[n]} in the other')
                 return ['  ' * i + self.tuple_of(merged)]
             saved = getattr(self, '_inloop', 0)
@@ -595,10 +617,20 @@ class Tr:
             for i, n in enumerate(merged):
                 head.append(pad + f'let {lname(n)} := {self.proj(v, i, len(merged))}')
             return head + self.S(rest, env2, k, ind)
-        if isinstance(s, ast.For):
-            return self.for_loop(s, rest, env, k, ind)
-        if isinstance(s, ast.While):
-            raise self.err(s, '`while` loops are refused (no reviewed fuel bound)')
+        if isinstance(s, (ast.For, ast.While)):
+            # a state variable that enters as an int and leaves as a scalar is embedded before the loop (`res = maxt`)
+            pre, env1 = [], dict(env)
+            for _ in range(4):
+                saved = (self.counter, list(getattr(self, '_loops', [])), getattr(self, '_inloop', 0), getattr(self, '_nwhile', 0))
+                try:
+                    body = self.for_loop(s, rest, env1, k, ind) if isinstance(s, ast.For) else self.while_loop(s, rest, env1, k, ind)
+                    return pre + body
+                except SortChange as sc:
+                    self.counter, self._loops, self._inloop, self._nwhile = saved
+                    txt = self.coerce(lname(sc.name), sc.have, sc.want, s)
+                    pre.append('  ' * ind + f'let {lname(sc.name)} := {txt}')
+                    env1[sc.name] = sc.want
+            raise self.err(s, 'sorts of the loop state do not stabilise')
         raise self.err(s, f'statement {type(s).__name__} outside the subset')
 
     def _plumbing_test(self, test):
@@ -609,7 +641,7 @@ class Tr:
         lp = self._loops[-1]
         for n in lp['state']:
             if env.get(n) != lp['sorts'][n]:
-                raise TranslationError(f'{self.t.module}:{self.t.name}: loop variable {n} changes sort inside the loop')
+                raise SortChange(n, lp['sorts'][n], env.get(n))
         tup = [lname(n) for n in lp['state']]
         if lp['brk']:
             tup = ['true' if brk else 'false'] + tup
@@ -666,6 +698,42 @@ class Tr:
         env2 = {n: t for n, t in env.items()}           # loop-local variables do not survive (refused if read later)
         return lines + self.S(rest, env2, k, ind)
 
+    def while_loop(self, s, rest, env, k, ind):
+        pad = '  ' * ind
+        if s.orelse:
+            raise self.err(s, 'while/else')
+        if any(isinstance(n, (ast.Break, ast.Continue)) for n in ast.walk(s)):
+            raise self.err(s, 'break/continue inside `while`')
+        whiles = sorted((n for n in ast.walk(self.f) if isinstance(n, ast.While)), key=lambda n: (n.lineno, n.col_offset))
+        i = [id(n) for n in whiles].index(id(s))            # source order (a continuation may be translated more than once)
+        if len(whiles) != len(self.t.fuels):
+            raise self.err(s, f'{len(whiles)} `while` loops but {len(self.t.fuels)} reviewed fuel bounds in the signature table')
+        fuel, _ = self.E(ast.parse(self.t.fuels[i], mode='eval').body, env, 'nat')
+        state = sorted(n for n in self.assigned(s.body) if n in env and n not in self.drop)
+        if not state:
+            raise self.err(s, 'loop without effect on variables defined before it')
+        lp = dict(state=state, sorts={n: env[n] for n in state}, brk=False)
+        self._loops = getattr(self, '_loops', []) + [lp]
+        self._inloop = getattr(self, '_inloop', 0) + 1
+        v = self.fresh('st')
+        nst = len(state)
+        ty = ' × '.join(LEAN_TYPE[env[n]] for n in state)
+        unpack = [f'let {lname(n)} := {self.proj(v, j, nst)}' for j, n in enumerate(state)]
+        ipad = '  ' * (ind + 2)
+        lines = [pad + f'let {v} := whileFuel {fuel}']
+        lines.append(pad + f'    (fun ({v} : {ty}) =>')
+        lines += [ipad + '  ' + u for u in unpack]
+        lines.append(ipad + '  ' + self.cond(s.test, env) + ')')
+        lines.append(pad + f'    (fun ({v} : {ty}) =>')
+        lines += [ipad + '  ' + u for u in unpack]
+        lines += self.S(list(s.body), dict(env), lambda e, i2: self._loop_exit(e, i2, False), ind + 3)
+        init = [lname(n) for n in state]
+        lines.append(pad + '    ) ' + (init[0] if len(init) == 1 else '(' + ', '.join(init) + ')'))
+        self._loops = self._loops[:-1]
+        self._inloop -= 1
+        lines += [pad + u for u in unpack]
+        return lines + self.S(rest, dict(env), k, ind)
+
     # ---- definition ------------------------------------------------------------------------------
     def definition(self):
         t, f = self.t, self.f
@@ -677,7 +745,10 @@ class Tr:
         if have != want:
             raise TranslationError(f'{t.module}:{t.name}: parameters {have} differ from the reviewed signature {want}')
         env = {p: s for p, s in t.params}
-        body = self.S(list(f.body), env, None, 1)
+        try:
+            body = self.S(list(f.body), env, None, 1)
+        except SortChange as sc:
+            raise TranslationError(f'{t.module}:{t.name}: variable {sc} changes sort outside a loop')
         ret = LEAN_TYPE[t.ret]
         if self.raises:
             ret = f'Option ({ret})'
@@ -742,6 +813,20 @@ HISTO = Family(
         '_histogram.otsu': Prim('otsu', ['hist'], 'nat'),
     })
 
+RC = Family(
+    'Riddler-Calvard', ['K', 'H', 'G'], '[Add K] [Div K] [LT K] [DecidableLT K]', 'RcPrims',
+    {
+        'fullhistogram': Prim('fullhistogram', ['pimg'], 'hist'),
+        'setitem': Prim('setitem', ['hist', 'nat', 'nat'], 'hist', doc='`h[i] = v`'),
+        '[]': Prim('getitem', ['hist', 'int'], 'int', doc='`h[i]` (a Python int index; the ties only use indices in range)'),
+        '.size:hist': Prim('size', ['hist'], 'nat'),
+        '.size:pimg': Prim('img_size', ['pimg'], 'nat'),
+        'np.cumsum': Prim('cumsum', ['hist'], 'hist'),
+        'np.flipud': Prim('flipud', ['hist'], 'hist'),
+        'np.arange': Prim('arange', ['nat'], 'hist'),
+        'hist*hist': Prim('mul', ['hist', 'hist'], 'hist', doc='elementwise product of two integer arrays'),
+    }, extra_params=EMBED)
+
 TARGETS = [
     Target('morph.py', 'open', [('f', 'img'), ('Bc', 'se')], 'img', MORPH),
     Target('morph.py', 'close', [('f', 'img'), ('Bc', 'se')], 'img', MORPH),
@@ -756,8 +841,10 @@ TARGETS = [
     Target('thresholding.py', 'gbernsen', [('f', 'fld'), ('se', 'se'), ('contrast_threshold', 'K'), ('gthresh', 'K')], 'bfld', THRESH),
     Target('thresholding.py', 'otsu', [('img', 'pimg'), ('ignore_zeros', 'bool')], 'nat', HISTO),
     Target('convolve.py', 'laplacian_2D', [('array', 'arr'), ('alpha', 'K')], 'arr', LAPL),
+    # fuels: both `while` loops run at most N = hist.size times (maxt walks down from N-1, t walks up to at most maxt)
+    Target('thresholding.py', 'rc', [('img', 'pimg'), ('ignore_zeros', 'bool')], 'K', RC, fuels=['N', 'N']),
 ]
-FAMILIES = [MORPH, CONV, THRESH, HISTO, LAPL]
+FAMILIES = [MORPH, CONV, THRESH, HISTO, LAPL, RC]
 
 
 def _find_function(tree, name):
@@ -791,7 +878,11 @@ def generate(repo: Path, outdir: Path) -> dict:
     old = p.read_text() if p.exists() else ''
     failed, names, res = {}, {}, {}
     s = ['/- GENERATED by translator/pybody.py from the current /repo sources. Do not edit. -/',
-         'set_option linter.unusedVariables false', 'namespace Mahotas.Generated.Py', '']
+         'set_option linter.unusedVariables false', 'namespace Mahotas.Generated.Py', '',
+         '/-- `while c: body` under a reviewed iteration bound: at most `fuel` iterations (the tie theorems show the bound is not hit) -/',
+         'def whileFuel {σ : Type} : Nat → (σ → Bool) → (σ → σ) → σ → σ',
+         '  | 0, _, _, s => s',
+         '  | n + 1, c, b, s => if c s then whileFuel n c b (b s) else s', '']
     trees = {}
     for fam in FAMILIES:
         s += [f'/-! ## family `{fam.name}` -/', ''] + fam.struct_lines() + ['']
